@@ -134,10 +134,34 @@ class Normalizer:
              `self.steps` with `self._steps`).
     """
 
-    def __init__(self, env: dict | None = None, atom_of: Callable[[ast.AST], str | None] | None = None) -> None:
+    def __init__(self, env: dict | None = None, atom_of: Callable[[ast.AST], str | None] | None = None,
+                 facts: 'Facts | None' = None) -> None:
         self.env = env or {}
         self.atom_of = atom_of
+        self.facts = facts
         self._busy: set[str] = set()
+
+    def decide(self, t: ast.expr) -> bool | None:
+        """Three-valued value of a test under the case facts (None when no facts are installed)."""
+        if self.facts is None:
+            return None
+        if isinstance(t, ast.UnaryOp) and isinstance(t.op, ast.Not):
+            v = self.decide(t.operand)
+            return None if v is None else not v
+        if isinstance(t, ast.BoolOp):
+            vs = [self.decide(v) for v in t.values]
+            if isinstance(t.op, ast.And):
+                return False if any(v is False for v in vs) else (True if all(v is True for v in vs) else None)
+            return True if any(v is True for v in vs) else (False if all(v is False for v in vs) else None)
+        if isinstance(t, ast.Compare) and len(t.ops) == 1 and isinstance(t.ops[0], (ast.Is, ast.IsNot)) \
+                and isinstance(t.comparators[0], ast.Constant) and t.comparators[0].value is None:
+            v = self.facts.none(self.text(t.left)) if self.facts.none is not None else None
+            return None if v is None else (v if isinstance(t.ops[0], ast.Is) else not v)
+        if isinstance(t, ast.Compare) and len(t.ops) == 1:
+            return self.facts.cmp(self.poly(t.left), type(t.ops[0]), self.poly(t.comparators[0]))
+        if isinstance(t, ast.Constant) and isinstance(t.value, bool):
+            return t.value
+        return None
 
     def text(self, n: ast.AST) -> str:
         try:
@@ -202,6 +226,19 @@ class Normalizer:
                 return Poly.atom(f'abs({args[0].canon()})')
             if fn in FLOAT_NAMES and len(args) == 1:
                 return args[0]
+            if fn in ('min', 'max') and not e.keywords and self.facts is not None and len(args) >= 2:
+                keep = list(args)
+                for a in args:
+                    for b in list(keep):
+                        if a is b or a not in keep:
+                            continue
+                        # drop b when a dominates it
+                        d = self.facts.cmp(a, ast.LtE if fn == 'min' else ast.GtE, b)
+                        if d is True and b in keep and len(keep) > 1:
+                            keep.remove(b)
+                if len(keep) == 1:
+                    return keep[0]
+                args = keep
             if fn in ('min', 'max') and not e.keywords:
                 return Poly.atom(f'{fn}({",".join(sorted(a.canon() for a in args))})')
             if isinstance(e.func, ast.Attribute):
@@ -227,8 +264,78 @@ class Normalizer:
                 return self.poly(ast.IfExp(test=flipped, body=e.orelse, orelse=e.body))
             if isinstance(t, ast.UnaryOp) and isinstance(t.op, ast.Not):
                 return self.poly(ast.IfExp(test=t.operand, body=e.orelse, orelse=e.body))
+            dv = self.decide(t)
+            if dv is not None:
+                return self.poly(e.body if dv else e.orelse)
             return Poly.atom(f'ite({self.text(e.test)},{self.poly(e.body).canon()},{self.poly(e.orelse).canon()})')
         return Poly.atom(self.text(e))
+
+
+class Facts:
+    """Case facts for a symbolic run: integer lower bounds on atoms.  Decides a comparison when the
+    difference of its sides is a constant or (+/-)atom + constant with a bounded atom; otherwise unknown."""
+
+    def __init__(self, lower: dict[str, int] | None = None, none: Callable[[str], bool | None] | None = None) -> None:
+        self.lower = dict(lower or {})
+        self.none = none
+
+    def _sign_range(self, d: Poly) -> tuple[Fraction | None, Fraction | None]:
+        """(lo, hi) bounds of d, None = unbounded."""
+        c = d.const_value()
+        if c is not None:
+            return c, c
+        const = Fraction(0)
+        atom = None
+        coef = None
+        for k, v in d.t.items():
+            if k == ():
+                const = v
+            elif len(k) == 1 and k[0][1] == 1 and atom is None:
+                atom, coef = k[0][0], v
+            else:
+                return None, None
+        if atom is None or atom not in self.lower or coef is None:
+            return None, None
+        lo = self.lower[atom]
+        if coef > 0:
+            return coef * lo + const, None
+        return None, coef * lo + const
+
+    def cmp(self, l: Poly, op: type, r: Poly) -> bool | None:
+        lo, hi = self._sign_range(l - r)
+        def gt0() -> bool | None:  # noqa: E306
+            if lo is not None and lo > 0:
+                return True
+            if hi is not None and hi <= 0:
+                return False
+            return None
+        def ge0() -> bool | None:  # noqa: E306
+            if lo is not None and lo >= 0:
+                return True
+            if hi is not None and hi < 0:
+                return False
+            return None
+        def eq0() -> bool | None:  # noqa: E306
+            if lo is not None and hi is not None and lo == hi == 0:
+                return True
+            if (lo is not None and lo > 0) or (hi is not None and hi < 0):
+                return False
+            return None
+        def neg(v: bool | None) -> bool | None:  # noqa: E306
+            return None if v is None else not v
+        if op is ast.Gt:
+            return gt0()
+        if op is ast.GtE:
+            return ge0()
+        if op is ast.Lt:
+            return neg(ge0())
+        if op is ast.LtE:
+            return neg(gt0())
+        if op is ast.Eq:
+            return eq0()
+        if op is ast.NotEq:
+            return neg(eq0())
+        return None
 
 
 def single_defs(stmts: list[ast.stmt]) -> dict[str, ast.expr]:
